@@ -1,21 +1,22 @@
 ------------------------------ MODULE MC_MSE ------------------------------
 (* Exhaustive configurations of MSE.tla.                                                          *)
+(*   MODE "all"    : the union of the three families below (one TLC run)                          *)
 (*   MODE "pads"   : bare streams, every combination of the four pads x first-read sizes          *)
 (*   MODE "neg"    : bare streams, every offer x selection policy x key mode x payload size       *)
 (*   MODE "policy" : btconn.Dial / Accept under every consistent policy against every peer kind   *)
-(*   MODE "gen"    : prints the policy matrix as JSON (one scenario per line) and stops           *)
 EXTENDS MSE, Json
 CONSTANTS MODE, PADS_AB, PADS_CD, FULLFR
 
 Base == [dk |-> "raw", ck |-> "raw", enable |-> TRUE, force |-> FALSE, forceIn |-> FALSE, provide |-> 3, ia |-> 0,
-         keymode |-> "same", selpol |-> "preferRC4", trunc |-> FALSE]
+         keymode |-> "same", selpol |-> "preferRC4", trunc |-> FALSE, loose |-> FALSE]
 
 PadScenarios ==
-    {[Base EXCEPT !.selpol = sp, !.ia = n] : sp \in {"preferRC4", "preferPlain"}, n \in {0, 68}}
+    IF FULLFR THEN {Base}
+    ELSE {[Base EXCEPT !.selpol = "preferRC4", !.ia = 68], [Base EXCEPT !.selpol = "preferPlain", !.ia = 0]}
 
 NegScenarios ==
-    {[Base EXCEPT !.provide = p, !.selpol = sp, !.keymode = km, !.ia = n] :
-        p \in 0 .. 3, sp \in SelPols, km \in KeyModes, n \in {0, 1, 68, 65535, 65536}}
+    {[Base EXCEPT !.provide = p, !.selpol = sp, !.keymode = km, !.ia = n, !.loose = lo] :
+        p \in 0 .. 3, sp \in SelPols, km \in KeyModes, n \in {0, 1, 68, 65535, 65536}, lo \in BOOLEAN}
 
 \* consistent (disable, force) settings of the dialer: enable=FALSE means DisableOutgoingEncryption
 RainDialers == {[Base EXCEPT !.dk = "rain", !.enable = en, !.force = f] : en \in BOOLEAN, f \in BOOLEAN} \ 
@@ -25,14 +26,20 @@ WithAcceptor(s) ==
     {[s EXCEPT !.ck = "rain", !.forceIn = f, !.keymode = km] : f \in BOOLEAN, km \in {"same", "unknown"}}
     \cup (IF s.dk = "rain"
           THEN {[s EXCEPT !.ck = "plainonly"]}
-               \cup {[s EXCEPT !.ck = k, !.selpol = sp, !.trunc = t, !.keymode = km] :
-                        k \in {"mse", "any"}, sp \in SelPols, t \in BOOLEAN, km \in {"same", "unknown"}}
+               \cup {[s EXCEPT !.ck = k, !.selpol = sp, !.loose = lo] : k \in {"mse", "any"}, sp \in SelPols, lo \in BOOLEAN}
+               \cup {[s EXCEPT !.ck = k, !.keymode = "unknown"] : k \in {"mse", "any"}}
+               \cup {[s EXCEPT !.ck = "any", !.trunc = TRUE], [s EXCEPT !.ck = "mse", !.selpol = "preferPlain", !.trunc = TRUE]}
           ELSE {})
 PolicyScenarios == UNION {WithAcceptor(s) : s \in RainDialers \cup OtherDialers}
 
 Scenarios == CASE MODE = "pads" -> PadScenarios
                [] MODE = "neg" -> NegScenarios
-               [] OTHER -> PolicyScenarios
+               [] MODE = "policy" -> PolicyScenarios
+               [] OTHER -> PadScenarios \cup NegScenarios \cup PolicyScenarios       \* "all"
+
+\* the dense pad sets are used for the pad scenarios, {0, 511} for the negotiation / policy scenarios
+PadsAB == IF sc \in PadScenarios THEN PADS_AB ELSE {0, 511}
+PadsCD == IF sc \in PadScenarios THEN PADS_CD ELSE {0, 511}
 
 ASSUME \A s \in Scenarios : ScOK(s)
 
@@ -45,15 +52,17 @@ ASSUME \A fr \in 96 .. FirstBuf : ~ScanFinds(fr, 96 + 513, 8, ScanA - fr) /\ ~Sc
 FrChoices(av) ==
     LET hi == Min2(FirstBuf, av) IN
     IF FULLFR THEN 96 .. hi
-    ELSE {96, 97, (96 + hi) \div 2, hi - 1, hi} \cap (96 .. hi)
+    ELSE {96, (96 + hi) \div 2, hi - 1, hi} \cap (96 .. hi)
 
-MCInit == \E s \in Scenarios : InitWith(s)
+\* the policy matrix is also printed (one JSON object per scenario): harness/c12 replays it against btconn
+MCInit == \E s \in Scenarios : /\ InitWith(s)
+                                /\ (s \in PolicyScenarios => PrintT("@@" \o ToJson(s)))
 
 MCNext ==
     \/ DPlainStart \/ DPlainRead \/ A4 \/ A5 \/ A6 \/ DBtRead
     \/ CPeek \/ B3 \/ B4
-    \/ \E pad \in PADS_AB : A1(pad) \/ B2(pad)
-    \/ \E pad \in PADS_CD : A3(pad) \/ B5(pad)
+    \/ \E pad \in PadsAB : A1(pad) \/ B2(pad)
+    \/ \E pad \in PadsCD : A3(pad) \/ B5(pad)
     \/ \E fr \in FrChoices(Avail(ba)) : A2(fr)
     \/ \E fr \in FrChoices(Avail(ab)) : B1(fr)
     \/ (Avail(ba) < 96 /\ A2(96)) \/ (Avail(ab) < 96 /\ B1(96))      \* the EOF branches
@@ -64,9 +73,4 @@ MCSpec == MCInit /\ [][MCNext]_vars
 \* every run ends with a result on both sides (a hang would be a deadlock of this specification)
 Live == <>[](Done)
 
-\* generator: the policy matrix replayed against the real btconn by harness/c12
-GenInit == /\ InitWith(Base)
-           /\ \A s \in PolicyScenarios : PrintT("@@" \o ToJson(s))
-GenNext == UNCHANGED vars
-GenSpec == GenInit /\ [][GenNext]_vars
 =============================================================================
